@@ -126,6 +126,36 @@ func ProjectMsg(m storage.Message) Msg {
 	return out
 }
 
+// Lite is the projection of a message used for reads that run concurrently with writers: what
+// GetMessage / GetMessages themselves return (identity, metadata, size), without the content, which
+// is read separately and later, and without the seen flag, which the memory store keeps in the live
+// message object.
+type Lite struct {
+	ID      string   `json:"id"`
+	From    string   `json:"from"`
+	To      []string `json:"to"`
+	Subject string   `json:"subject"`
+	Date    string   `json:"date"`
+	Size    int64    `json:"size"`
+}
+
+func ProjectLite(m storage.Message) Lite {
+	out := Lite{ID: m.ID(), Size: m.Size(), From: stringutil.StringAddress(m.From()), To: stringutil.StringAddressList(m.To()), Subject: m.Subject()}
+	if out.To == nil {
+		out.To = []string{}
+	}
+	out.Date = m.Date().UTC().Format("2006-01-02T15:04:05.000000000Z")
+	return out
+}
+
+func ProjectLites(ms []storage.Message) []Lite {
+	out := make([]Lite, 0, len(ms))
+	for _, m := range ms {
+		out = append(out, ProjectLite(m))
+	}
+	return out
+}
+
 func itoa(n int) string {
 	b, _ := json.Marshal(n)
 	return string(b)
